@@ -237,11 +237,12 @@ func init() {
 	})
 	register(&Property{
 		ID: "C02",
-		Explanation: "Decides: (save-name-is-hash) at every Backend.Save site of package repository the handle name is ID.String() of restic.Hash applied to exactly the bytes wrapped by the reader (pack files: sha256 streamed over the same temporary file that is uploaded; config: constant zero ID only on the t==ConfigFile branch); (verify-before-store) SaveBlob/be.Save/header Write are reachable only through the success edge of verifyCiphertext/verifyUnpacked/verifyHeader on the same buffer, and the verifiers return nil only after the hash/bytes comparison (or the documented NoExtraVerify opt-out); (nil-only-after-hash) packBlobIterator.Next can leave Err nil only on paths through Hash(plaintext).Equal(entry.ID), the plaintext handed out is the hashed value, and LoadRaw returns a nil error only through id == Hash(buf) (config exempt); (load-sites) every backend read in package repository is one of the classified verifying load paths; (zero-chunk-agreement) the all-zero shortcut tests len and zero-prefix against the same chunker.MinSize that zeroChunk() hashes. Not decided: that SHA-256/zstd behave; stale-but-hash-correct data.",
+		Explanation: "Decides: (save-name-is-hash) at every Backend.Save site of package repository the handle name is ID.String() of restic.Hash applied to exactly the bytes wrapped by the reader (pack files: sha256 streamed over the same temporary file that is uploaded; config: constant zero ID only on the t==ConfigFile branch); (verify-before-store) SaveBlob/be.Save/header Write are reachable only through the success edge of verifyCiphertext/verifyUnpacked/verifyHeader on the same buffer, and the verifiers return nil only after the hash/bytes comparison (or the documented NoExtraVerify opt-out); (nil-only-after-hash) packBlobIterator.Next can leave Err nil only on paths through Hash(plaintext).Equal(entry.ID), the plaintext handed out is the hashed value, and LoadRaw returns a nil error only through id == Hash(buf) (config exempt); (load-sites) every backend read in package repository is one of the classified verifying load paths; (zero-chunk-agreement) the all-zero shortcut tests len and zero-prefix against the same chunker.MinSize that zeroChunk() hashes. (loadblob-returns-verified-bytes) what loadBlob returns with a nil error is the plaintext the pack-blob iterator checked against the ID — the value itself, or the caller's buffer cut to len(plaintext) after copy(buf, plaintext); its length never comes from the index entry (added after a seeded change that cut the buffer to the entry's claimed length). Not decided: that SHA-256/zstd behave; stale-but-hash-correct data.",
 		Assumptions: commonAssumptions,
 		Technique:   "static analysis: value-origin slices at all save sites + path-sensitive nil-flow cuts (go/ssa)",
 		AllConfigs:  true,
 		Run: func(c *eng.Ctx) {
+			ruleLoadBlobReturnsVerified(c)
 			ruleSaveNameIsHash(c)
 			ruleVerifyBeforeStore(c)
 			ruleNilOnlyAfterHash(c)
@@ -249,6 +250,8 @@ func init() {
 			ruleZeroChunk(c)
 		},
 		Controls: []Control{
+			{Name: "returned-buffer-not-filled", File: "internal/repository/repository.go",
+				Old: "		buf = buf[:len(plaintext)]\n		copy(buf, plaintext)\n		return buf, nil", New: "		buf = buf[:len(plaintext)]\n		return buf, nil", Rule: "loadblob-returns-verified-bytes"},
 			{Name: "name-unpacked-by-plaintext-hash", File: "internal/repository/repository.go",
 				Old: "		id = restic.Hash(ciphertext)\n", New: "		id = restic.Hash(p)\n", Rule: "save-name-is-hash"},
 			{Name: "drop-hash-compare-in-iterator", File: "internal/repository/repository.go",
